@@ -25,6 +25,15 @@ class DirWorld:
         self.args_seen = []
         w = self
 
+        def fresh(d, what):
+            """every call gets its own dictionary: user code may keep and modify it"""
+            if isinstance(d, dict) and "__scribbled__" in d:
+                w.log.append(("STALE", what, 0))
+
+        def scribble(d):
+            if isinstance(d, dict):
+                d["__scribbled__"] = True
+
         def mark(v, h, loc, n):
             if isinstance(v, dict) and h == "o":
                 # an object type's output hook returns a NEW object whose leaves are marked (what it returns is what the next stage sees)
@@ -45,7 +54,10 @@ class DirWorld:
 
                     async def on_field_execution(self, directive_args, next_resolver, parent, args, ctx, info):
                         w.log.append(("field", loc, directive_args["n"]))
-                        return mark(await next_resolver(parent, args, ctx, info), "f", loc, directive_args["n"])
+                        fresh(directive_args, "directive_args")
+                        n = directive_args["n"]
+                        scribble(directive_args)
+                        return mark(await next_resolver(parent, args, ctx, info), "f", loc, n)
 
                     async def on_pre_output_coercion(self, directive_args, next_directive, value, ctx, info):
                         w.log.append(("out", loc, directive_args["n"]))
@@ -75,6 +87,7 @@ class DirWorld:
         sdl += """
 scalar Sx%s
 enum E%s { X%s  Y }
+enum E2 { Y  X @tv(n: 7)  Z @tv(n: 8) }
 input In%s { f: Sx%s  e: E }
 type T%s { s: Sx }
 interface I { n: Sx }
@@ -86,6 +99,7 @@ type Query {
   fe(a: E%s): E%s
   fi(a: In%s): Sx%s
   o: T
+  other(a: E2): E2
 }
 """ % (tags("ts", c["s"]), tags("te", c["e"]), tags("tv", c["v"]), tags("tio", c["io"]), tags("tif", c["if"]), tags("to", c["o"]),
        tags("to", c["o"]), tags("tf", c["f"]), tags("to", c["o"]), tags("tf", c["f"]),
@@ -109,11 +123,19 @@ type Query {
 
         @t.Resolver("Query.items", schema_name=self.sn)
         async def items(p, a, ctx, i):
+            fresh(a, "args of Query.items")
+            scribble(a)
             return [{"_typename": "IA", "n": "r(a)"}, {"_typename": "IB", "n": "r(b)"}]
 
         @t.Resolver("Query.o", schema_name=self.sn)
         async def o(p, a, ctx, i):
+            fresh(a, "args of Query.o")
+            scribble(a)
             return {"s": "r(v)"}
+
+        @t.Resolver("Query.other", schema_name=self.sn)
+        async def other(p, a, ctx, i):
+            return a.get("a")
         self.eng = main_loop().run(t.create_engine(sdl, schema_name=self.sn))
         q = (" @tq(n: 1)" if c["q"] >= 1 else "") + (" @plain(n: 97)" if hetero else "") + (" @tr(n: 2)" if c["q"] >= 2 else "") + (" @include(if: true)" if hetero else "")
         self.hetero = hetero
@@ -189,6 +211,8 @@ def job(j):
         resp, q = w.run_merged()
         resp_again, _q = w.run_merged()        # the same text once more: per-document state must not accumulate
         mm = []
+        if any(e[0] == "STALE" for e in w.log):
+            mm.append("merged: a hook / resolver received a dictionary that an earlier call had modified: %r" % sorted({e[1] for e in w.log if e[0] == "STALE"}))
         if resp_again != resp:
             mm.append("merged: the second execution of the same text answers %r, the first %r" % (resp_again, resp))
         if not isinstance(resp, dict) or resp.get("errors") or "__raised__" in resp:
